@@ -75,6 +75,7 @@ def run(ctx, obs):
         pure(ctx, obs, q, exc)
         fresh(ctx, obs, q, exc)
     invariants(ctx, obs)
+    value_immutability(ctx, obs)
 
 
 INPLACE_HELPERS = {
@@ -238,3 +239,43 @@ def invariants(ctx, obs, rule='STATE'):
                                   '.dissimilarities is assigned the 2-D vector form (batch_to_vectors / concatenate)',
                                   f'`{ast.unparse(n)[:80]}` assigns .dissimilarities from another source: the get_matrices() '
                                   f'freshness override no longer holds', '', where(prog, fi, n))
+
+
+DESCRIPTOR_MODULES = ('util.descriptor_utils.',)
+
+
+def value_immutability(ctx, obs, rule='VALS', prefixes=PUBLIC_PREFIXES):
+    """Library invariant behind every shallow dict copy (subset / subsample / copy / constructors share the VALUE lists of
+    descriptor dictionaries): a descriptor value is replaced (`d[k] = new`), never grown or edited in place - not even by
+    the documented in-place API, whose contract is to change the object it is called on and nothing else."""
+    from ..heap import DICT_FIELDS
+    prog, heap = ctx.prog, ctx.heap
+    n = 0
+    for q in sorted(prog.functions):
+        if not q.startswith(prefixes) or q.startswith(OUT_OF_SCOPE):
+            continue
+        fi = prog.functions[q]
+        s = heap.summary(q)
+        hits = []
+        for (loc, kind, key) in sorted(s.writes):
+            if kind != 'item' or not is_param_loc(loc) or not loc.endswith('.*') or key == 'index':
+                continue
+            parts = loc[2:].split('.')
+            in_dict_field = len(parts) == 3 and parts[1] in DICT_FIELDS
+            in_desc_param = len(parts) == 2 and q.startswith(DESCRIPTOR_MODULES)
+            if not (in_dict_field or in_desc_param):
+                continue
+            origin = s.write_sites.get((loc, kind, key))
+            if origin and origin[0] != q:
+                continue      # reported at the function that performs the write
+            hits.append((loc, origin))
+        n += 1
+        if not hits:
+            obs.ok(rule, q, 'descriptor values are replaced, never edited in place', '', where(prog, fi, fi.node))
+        for loc, origin in hits:
+            obs.bad(rule, q, f'no in-place edit of a value stored in {loc[:-2]}',
+                    f'line {origin[1] if origin else "?"}: `{origin[2] if origin else ""}` edits a descriptor value in place; '
+                    f'the value lists are shared between objects (subset, subsample, copy and the constructors copy the '
+                    f'dictionary, not its values), so the edit shows up in every object that shares the list',
+                    where(prog, fi, fi.node))
+    return n
